@@ -141,6 +141,55 @@ fn v1_ok(h: &v1::Header, inc: bool, cmp: bool, full: bool) -> Map<String, Value>
     m
 }
 
+/// Every other way of copying a v1 header that the public API offers (`Clone::clone`,
+/// `Clone::clone_from` onto an unrelated owned header) gives a header equal to the original
+/// with the same views.
+fn v1_copies_agree(h: &v1::Header) -> bool {
+    let c = h.clone();
+    let base = v1::Header::try_from("PROXY TCP4 1.2.3.4 5.6.7.8 9 10\r\n").map(|b| b.to_owned());
+    let mut d: v1::Header<'_> = match base {
+        Ok(b) => b,
+        Err(_) => return c == *h && v1_views(&c) == v1_views(h),
+    };
+    d.clone_from(h);
+    let reference = v1_views(h);
+    c == *h && d == *h && v1_views(&c) == reference && v1_views(&d) == reference
+        && c.addresses == h.addresses && d.addresses == h.addresses && d.header == h.header
+}
+
+fn v2_copies_agree(h: &v2::Header) -> bool {
+    let c = h.clone();
+    let base_bytes: Vec<u8> = {
+        let mut b = b"\r\n\r\n\0\r\nQUIT\n".to_vec();
+        b.extend_from_slice(&[0x21, 0x11, 0, 15, 9, 9, 9, 9, 8, 8, 8, 8, 0, 1, 0, 2, 0xEE, 0, 0]);
+        b
+    };
+    let base = v2::Header::try_from(&base_bytes[..]).map(|b| b.to_owned());
+    let mut d: v2::Header<'_> = match base {
+        Ok(b) => b,
+        Err(_) => return c == *h,
+    };
+    d.clone_from(h);
+    c == *h && d == *h && c.header == h.header && d.header == h.header && d.addresses == h.addresses
+        && d.command == h.command && d.protocol == h.protocol && d.as_bytes() == h.as_bytes()
+        && d.tlv_bytes() == h.tlv_bytes() && d.address_bytes() == h.address_bytes()
+}
+
+fn tlv_copies_agree(t: &v2::TypeLengthValue) -> bool {
+    let c = t.clone();
+    // destinations of clone_from: an owned TLV with a larger buffer and another type, an owned
+    // one with a smaller buffer, a borrowed one
+    let big = vec![0x5Au8; t.value.len() + 9];
+    let mut d1: v2::TypeLengthValue<'_> = v2::TypeLengthValue::new(t.kind ^ 0xFF, &big[..]).to_owned();
+    d1.clone_from(t);
+    let mut d2: v2::TypeLengthValue<'_> = v2::TypeLengthValue::new(t.kind.wrapping_add(1), &big[..0]).to_owned();
+    d2.clone_from(t);
+    let mut d3: v2::TypeLengthValue<'_> = v2::TypeLengthValue::new(t.kind.wrapping_add(7), &big[..1]);
+    d3.clone_from(t);
+    let same = |x: &v2::TypeLengthValue| *x == *t && x.kind == t.kind && x.value == t.value && x.len() == t.len() && x.is_empty() == t.is_empty();
+    same(&c) && same(&d1) && same(&d2) && same(&d3)
+}
+
 /// `v1::Header::try_from(&[u8])` on a private copy of the input; the copy is overwritten and
 /// dropped before the owned header's views are read.
 pub fn v1_bytes(input: &[u8], full: bool) -> Value {
@@ -155,7 +204,7 @@ pub fn v1_bytes(input: &[u8], full: bool) -> Value {
                     let m = v1_ok(h, inc, cmp, full);
                     let owned = if full {
                         let o = h.to_owned();
-                        let eq = o == *h;
+                        let eq = o == *h && v1_copies_agree(h);
                         Some((o, eq))
                     } else {
                         None
@@ -191,7 +240,7 @@ pub fn v1_str(input: &str, full: bool) -> Value {
                     let m = v1_ok(h, inc, cmp, full);
                     let owned = if full {
                         let o = h.to_owned();
-                        let eq = o == *h;
+                        let eq = o == *h && v1_copies_agree(h);
                         Some((o, eq))
                     } else {
                         None
@@ -319,7 +368,7 @@ fn tlv_item_inner(item: Option<Result<v2::TypeLengthValue<'_>, v2::ParseError>>)
         None => json!({"k": "none"}),
         Some(Ok(t)) => {
             let owned = t.to_owned();
-            let eq = owned == t;
+            let eq = owned == t && tlv_copies_agree(&t);
             json!({"k": "ok", "t": t.kind, "v": rl(t.value.as_ref()), "len": t.len(),
                    "empty": t.is_empty(), "own_eq": eq, "own_t": owned.kind,
                    "own_v": rl(owned.value.as_ref())})
@@ -446,7 +495,7 @@ pub fn v2_bytes(input: &[u8], full: bool) -> Value {
                     let out = v2_ok(h, full);
                     let owned = if full {
                         let o = h.to_owned();
-                        let eq = o == *h;
+                        let eq = o == *h && v2_copies_agree(h);
                         Some((o, eq))
                     } else {
                         None
